@@ -31,11 +31,16 @@ package main
 //      lying on a box edge is computed as (edge - u)·(1/v), one ulp off the literal 0 / 1 it
 //      duplicates (49·(1/49) = 0.9999999999999999); kept apart, the box sees three candidate
 //      points and drops the piece
+//  W9  qtNode.minDist2: the search over the children is left early only when the distance found
+//      is zero (any other cut-off returns a distance that a later child could still lower)
+//  W10 convertLines keeps every segment of a leaf (a filter opens the outline: the winding of
+//      every point level with the dropped segment is off by one)
 //
 // Not decided: distances (clipping tolerance, pruning by box distance, search order).
 
 import (
 	"fmt"
+	"go/token"
 	"math/big"
 	"strings"
 
@@ -67,6 +72,8 @@ func checkC04(ctx *Ctx, r *Report, tier string) {
 	checkClipEndpoints(ctx, r)
 	checkClipPrefilter(ctx, r)
 	checkParameterMerging(ctx, r)
+	checkEveryLineConverted(ctx, r)
+	checkDistanceSearchExits(ctx, r)
 }
 
 var windingConvention = true // lower endpoint closed (set by W1 on the real function)
@@ -704,4 +711,92 @@ func checkParameterMerging(ctx *Ctx, r *Report) {
 	}
 	r.check("W8", "tAppend|parameters-an-ulp-apart-are-one-candidate", fn.Pos(), ok, "stored 1, new 1-2^-53 (what (edge-u)*(1/v) gives for an end point on the edge): must count as already present; test: "+shortKey(dup.Key(), 160))
 	r.floor("W8", 1)
+}
+
+// ---------------------------------------------------------------- W10 / W9
+
+func checkEveryLineConverted(ctx *Ctx, r *Report) {
+	fn := ctx.ssaFunc("sdf", "convertLines")
+	if fn == nil {
+		r.undecided("W10", "convertLines", 0, "not found")
+		return
+	}
+	n := 0
+	allInstrs(fn, func(b *ssa.BasicBlock, ins ssa.Instruction) {
+		v, ok := ins.(ssa.Value)
+		if !ok {
+			return
+		}
+		if _, isCall := ins.(*ssa.Call); !isCall {
+			if al, isAlloc := ins.(*ssa.Alloc); !isAlloc || !al.Heap {
+				return
+			}
+		}
+		if !strings.HasSuffix(v.Type().String(), "sdf.lineInfo") || innermostLoop(fn, b) == nil {
+			return
+		}
+		n++
+		ok2, why := everyIterationReaches(fn, ins)
+		r.check("W10", fmt.Sprintf("convertLines|segment-info#%d-built-for-every-segment", n), ins.Pos(), ok2, "every segment handed to a leaf takes part in distance and winding; "+why)
+	})
+	if n == 0 {
+		r.undecided("W10", "convertLines", fn.Pos(), "no per-segment construction found in a loop")
+	}
+	r.floor("W10", 1)
+}
+
+func checkDistanceSearchExits(ctx *Ctx, r *Report) {
+	fn := ctx.ssaFunc("sdf", "(*qtNode).minDist2")
+	if fn == nil {
+		r.undecided("W9", "qtNode.minDist2", 0, "not found")
+		return
+	}
+	n, bad := 0, ""
+	var pos token.Pos = fn.Pos()
+	for _, ld := range loopDescs(fn, topoAll(fn)) {
+		n++
+		for _, x := range ld.order {
+			if x == ld.header {
+				continue
+			}
+			for _, su := range x.Succs {
+				if ld.in[su] {
+					continue
+				}
+				// a side exit: allowed only under "the distance is zero"
+				zero := false
+				if iff, ok := x.Instrs[len(x.Instrs)-1].(*ssa.If); ok {
+					if bo, ok := iff.Cond.(*ssa.BinOp); ok {
+						isZero := func(v ssa.Value) bool {
+							c, ok := v.(*ssa.Const)
+							if !ok || c.Value == nil {
+								return false
+							}
+							q, ok := constantToRat(c.Value)
+							return ok && q.Sign() == 0
+						}
+						taken := x.Succs[0] == su // exit on the true branch
+						switch {
+						case isZero(bo.Y) && taken && (bo.Op == token.LEQ || bo.Op == token.EQL):
+							zero = true
+						case isZero(bo.X) && taken && (bo.Op == token.GEQ || bo.Op == token.EQL):
+							zero = true
+						case isZero(bo.Y) && !taken && (bo.Op == token.GTR || bo.Op == token.NEQ):
+							zero = true
+						}
+						pos = bo.Pos()
+					}
+				}
+				if !zero {
+					bad += " the search over the children is left early under a condition that does not mean \"distance zero\";"
+				}
+			}
+		}
+	}
+	if n == 0 {
+		r.check("W9", "qtNode.minDist2|search-visits-every-child-that-can-lower-the-distance", fn.Pos(), true, "no loop: children are visited by straight-line code")
+	} else {
+		r.check("W9", "qtNode.minDist2|search-visits-every-child-that-can-lower-the-distance", pos, bad == "", "children are skipped only by their own box-distance test;"+bad)
+	}
+	r.floor("W9", 1)
 }
